@@ -9,6 +9,7 @@ package doccomposer
 import (
 	"encoding/json"
 	"fmt"
+	"strings"
 
 	jsonpatch "github.com/evanphx/json-patch"
 
@@ -108,6 +109,10 @@ func applyJSON(doc document.Document, entry interface{}) (result document.Docume
 	// apply the operations one at a time on the serialized document, so that a value
 	// copied by one operation never shares structure with its source in the next one
 	for i := range jsonPatches {
+		if err = validateCopyTarget(jsonPatches[i]); err != nil {
+			return nil, err
+		}
+
 		docBytes, err = jsonPatches[i : i+1].Apply(docBytes)
 		if err != nil {
 			return nil, err
@@ -115,6 +120,26 @@ func applyJSON(doc document.Document, entry interface{}) (result document.Docume
 	}
 
 	return document.FromBytes(docBytes)
+}
+
+// validateCopyTarget refuses a copy whose target lies inside its own source: the JSON patch
+// library would build a cyclic document and overflow the stack while serializing it.
+func validateCopyTarget(op map[string]*json.RawMessage) error {
+	var kind, from, path string
+
+	for name, target := range map[string]*string{"op": &kind, "from": &from, "path": &path} {
+		if raw, ok := op[name]; ok && raw != nil {
+			if err := json.Unmarshal(*raw, target); err != nil {
+				return fmt.Errorf("invalid JSON patch member '%s': %w", name, err)
+			}
+		}
+	}
+
+	if kind == "copy" && strings.HasPrefix(path, from+"/") {
+		return fmt.Errorf("cannot copy '%s' into its own child '%s'", from, path)
+	}
+
+	return nil
 }
 
 func applyRecover(replaceDoc interface{}) (document.Document, error) {
